@@ -10,21 +10,32 @@ from the same driver call; impl = the real ELFFile on BytesIO(img)."""
 import io, random, struct
 from tools.lib.framework import impl_call
 
-CLAIMED = False
+CLAIMED = True
 CONFIG = {'assumptions': ['names are compared as UTF-8 bytes; generated names are valid UTF-8 (the errors="replace" path is outside the property)',
                           'stream = BytesIO over the assembled image; files shorter than 2^63 bytes',
                           'well-formed = Spec/C01Image.v wf_image: records at e_shoff + i*e_shentsize / e_phoff + j*e_phentsize, '
                           'names NUL-terminated in the designated string table, and what a specialised section object needs to exist '
                           '(valid sh_link target, entry size, readable compression/hash header, attributes version byte)']}
-LEVEL = {'text': 'Machine-checked theorems over ALL byte lists that carry an abstract image (both classes, both byte orders, any '
-                 'e_machine/OS ABI, header tables anywhere, entry sizes >= standard, the three extended-numbering escapes): file header, '
-                 'every section (name, all fields, object kind), every segment, counts, type-filtered enumeration and name lookups of the '
-                 'model equal the abstract content; Gen layouts = gABI tables; enum fields decode to a dictionary name or the raw integer; '
-                 'finite theorem for the machine -> sh_type/p_type dictionary selection. The model is a transliteration of elffile.py and '
-                 'the section/segment constructors pinned to the code by differential correspondence on synthesized images.',
+LEVEL = {'text': 'Machine-checked (Coq 8.16, no axioms) theorems over ALL byte lists img and abstract images s with wf_image img s = true '
+                 '(both classes, both byte orders, any e_machine/OS ABI value, header tables anywhere, entry sizes >= standard, any counts, the '
+                 'three extended-numbering escapes, arbitrary filler): the model of ELFFile(stream) succeeds and reports class, byte order and '
+                 'every file-header field (C01_ehdr_exact); section header i / program header j are decoded to every encoded field '
+                 '(C01_shdr_at_exact, C01_phdr_at_exact); num_sections/num_segments/get_shstrndx incl. e_shnum=0, PN_XNUM, SHN_XINDEX '
+                 '(C01_counts_exact); names, get_section/get_segment objects with their kind, iter_sections/iter_segments in file order with the '
+                 'type filter = filter (C01_names_exact, C01_section_exact, C01_segment_exact, C01_iter_*_exact); index and name lookups agree '
+                 'with the enumeration, last section bearing a name wins (C01_index_agrees, C01_lookup_agrees, C01_lookup_meaning); enum fields '
+                 'decode to a name of the dictionary bound to the field or the raw integer (C01_enum_fields, C01_enum_named_or_raw, '
+                 'C01_enum_adapter). Unconditional (any stream): the class of every object _make_section/_make_segment return is the one the '
+                 'decoded type calls for, incl. the .stab rule (C01_dispatch_kind, C01_segment_kind). Gen layouts = gABI tables '
+                 '(C01_gen_layouts_match_gabi). The model is a hand transliteration of elffile.py and of the section/segment constructors, pinned '
+                 'to the code by differential correspondence on synthesized images; layouts, enum dictionaries, machine->dictionary maps and the '
+                 '_section_offset/_segment_offset bodies are regenerated from the live code.',
          'design_ref': '4.1', 'technique': 'Coq proof (generic layout round trip, layout predicates) + extracted-model correspondence',
-         'note': 'Trusted: Coq kernel, ExtrOcamlBasic extraction, harness, Gen translator. No axioms. Names of codes are relative to the '
-                 'dictionaries regenerated from the code (C17 ties those to the registries).'}
+         'note': 'Trusted: Coq kernel, ExtrOcamlBasic extraction, harness, Gen translators. No axioms, nothing _partial. Names of codes are '
+                 'relative to the dictionaries regenerated from the code (C17 ties those to the registries). Only pinned by correspondence '
+                 '(not proved): that the hand model equals the Python code; behaviour on malformed images (model_drift stream). The theorems '
+                 'require, per specialised section kind, what its constructor checks (valid sh_link target, entry size, readable '
+                 'compression/hash header, attributes version byte) — part of wf_image.'}
 RULE = ('cases: synthesized ELF images = class x byte order x e_machine (the 5 table-switching machines, other named, unknown numbers) x '
         'OS ABI x header-table placement (before/after/between bodies, garbage filler and gaps) x entry size standard..+64 x counts 0,1,few '
         '(escape e_shnum=0/PN_XNUM/SHN_XINDEX forced at small counts; true >=0xff00 sections / >=0xffff segments in thorough) x random '
@@ -260,6 +271,8 @@ def make_case(rng, opts=None):
     if n > 0 and rng.random() < 0.3:
         e_shstrndx = 0xffff
         sections[0][1][6] = k
+    if m == 0 and e_phoff == 0 and rng.random() < 0.5:
+        e_phnum = rng.choice([1, 7, 0xfffe, 0xffff])      # no program header table (e_phoff = 0): e_phnum means nothing
     if n == 0:
         shentsize = rng.choice([shentsize, 0, 1, 0xffff])
     if m == 0:
@@ -536,6 +549,16 @@ def _strip_pad(ans):
     return ans
 
 
+def _canon_names(ans):
+    """the library decodes section names with errors='replace'; the model keeps the bytes.  Outside the
+    property's domain (malformed images) a name may be invalid UTF-8: compare modulo that replacement."""
+    if isinstance(ans, list):
+        if len(ans) == 3 and isinstance(ans[0], bytes) and isinstance(ans[1], list) and isinstance(ans[2], str):
+            return [ans[0].decode('utf-8', errors='replace').encode('utf-8'), ans[1], ans[2]]
+        return [_canon_names(x) for x in ans]
+    return ans
+
+
 def _classify(a, img, impl, spec, queries):
     """stable key for a failing case: which observable differs first"""
     sp = a[0]
@@ -588,8 +611,8 @@ def evaluate(ctx, cases):
     for (kind, a0), a, img, qa, ra, qb, rb in zip(cases, full, imgs, q1, r1, q2, r2):
         queries = qa + qb
         wf = bool(ra[0])
-        model = _strip_pad(ra[1] + rb[1])
-        spec = _strip_pad(ra[2] + rb[2])
+        model = _canon_names(_strip_pad(ra[1] + rb[1]))
+        spec = _canon_names(_strip_pad(ra[2] + rb[2]))
         try:
             elf = ELFFile(io.BytesIO(img))
             impl = [_impl_answer(elf, q, lambda: ELFFile(io.BytesIO(img))) for q in queries]
